@@ -101,6 +101,7 @@ FILES = [
     "a = 1\r\nb = 2\r\n",
     "local t = {\n  1, -- one\n  2,\n}\n\n\nreturn t\n-- bye\n",
     "print(1)\n-- bye\n",
+    "local a = 1;\n",
 ]
 
 EXCEPTS = [
@@ -117,6 +118,9 @@ KEY_SOURCE_CR = "remove-comments-source-cr:--_a\\rprint(2)"
 
 
 KEY_CRLF = "remove-comments-crlf-anchor:--_keep\\r\\n"
+KEY_RAW = "remove-spaces-ellipsis-after-line-comment:(--c\\n...number)"
+KEY_END_SEMI = "append-end-before-semicolon:local_a=1;"
+KEY_MISCLASSIFIED = "append-text-misclassified-line-comment:[a["
 KEY_MINUS = "remove-spaces-minus-before-comment:a_-_--_c"
 
 
@@ -128,7 +132,30 @@ def known_class(text):
         return KEY_OPENER
     if "\r" in text:
         return KEY_CR
+    if text.startswith("[") and generator_says_long("--" + text):
+        return KEY_MISCLASSIFIED
     return None
+
+
+def generator_says_long(content):
+    """darklua's is_single_line_comment says "not a line comment" (python transcription, used only to
+    name the class; the Coq model of the same function is tied to the code in stream A)"""
+    if not content.startswith("--["):
+        return False
+    k = content[3:].find("[")
+    if k < 0:
+        return False
+    if k < 3:
+        return True
+    b = content.encode("utf-8")
+    if k > len(b):
+        return True
+    try:
+        sub = b[3:k].decode("utf-8")
+        b[k:].decode("utf-8")
+    except UnicodeDecodeError:
+        return True
+    return all(ch == "=" for ch in sub)
 
 
 def nontrivial_text(t):
@@ -327,6 +354,25 @@ def minus_before_comment(src):
     return False
 
 
+def ellipsis_after_line_comment(src):
+    """a line comment whose next code token is `...` (the variadic type pack's `...` is pushed raw)"""
+    data = src.encode("utf-8")
+    try:
+        toks, comments = L.lex(data)
+    except L.LexError:
+        return False
+    starts = sorted(t.start for t in toks)
+    by_start = {t.start: t for t in toks}
+    import bisect
+    for c in comments:
+        if L.long_bracket_level(data, c.start + 2) is not None:
+            continue
+        k = bisect.bisect_left(starts, c.end)
+        if k < len(starts) and by_start[starts[k]].text == b"...":
+            return True
+    return False
+
+
 def joined(comments):
     return b"".join(comments)
 
@@ -418,7 +464,8 @@ def run(ctx):
         "local x = a - -- c\n b()\n",
         "-- keep\r\nlocal a = 1 -- keep\r\nreturn a --[[ keep ]]\r\n",
         "local y = a - --[[c]] b\nreturn - --[[d]] y\n",
-    ]
+        "type F = (--c\n...number) -> ()\nlocal x = 1\n",
+    ] + list(G.TYPED_SOURCES)
     sources = [s for s in G.FIXED_SOURCES] + special_sources + gen_sources
     cr_sources = ["-- a\rprint(2)\nprint(1)\n", "print(1) -- a\rprint(2)\r"]
     for si, s in enumerate(sources + cr_sources):
@@ -511,6 +558,8 @@ def run(ctx):
                 key = known_class(text)
                 if key is None and kind == "append+spaces" and minus_before_comment(src):
                     key = KEY_MINUS
+                if key is None and loc == "end" and "moved code b';'" in problem:
+                    key = KEY_END_SEMI
             elif kind == "append" and loc == "end" and text:
                 p2 = o.end_comment_lines()
                 if p2 is not None:
@@ -539,6 +588,8 @@ def run(ctx):
                 key = KEY_SOURCE_CR
             elif problem is not None and kind != "remove_comments" and minus_before_comment(src):
                 key = KEY_MINUS
+            elif problem is not None and kind != "remove_comments" and ellipsis_after_line_comment(src):
+                key = KEY_RAW
             samples.setdefault(kind, {"except": meta["except"], "source": src[:60], "output": out[:80]})
         elif kind == "remove_spaces":
             if has_comment:
@@ -548,6 +599,8 @@ def run(ctx):
                 problem = "comment bytes differ: %r vs %r" % ([c.text for c in o.lin[1]][:5], [c.text for c in o.lout[1]][:5])
             if problem is not None and minus_before_comment(src):
                 key = KEY_MINUS
+            elif problem is not None and ellipsis_after_line_comment(src):
+                key = KEY_RAW
         elif kind.startswith("generator:"):
             gname = kind.split(":")[1]
             base = base_out.get((gname, src))
